@@ -64,6 +64,10 @@ func (check) Plan(tier string, seed int64) []harness.Batch {
 		bs = append(bs, harness.Batch{Name: fmt.Sprintf("quiet-shutdown-%d", p), Seed: seed*1000039 + int64(p), Spec: s, TimeoutS: 3000, CaseTimeoutS: 240, Race: true})
 	}
 	for p := 0; p < 2; p++ {
+		s, _ := json.Marshal(spec{Kind: "early-reply", N: 5 * n})
+		bs = append(bs, harness.Batch{Name: fmt.Sprintf("early-reply-%d", p), Seed: seed*1000087 + int64(p), Spec: s, TimeoutS: 3000, CaseTimeoutS: 240, Race: true})
+	}
+	for p := 0; p < 2; p++ {
 		s, _ := json.Marshal(spec{Kind: "esc-race", N: 10 * n})
 		bs = append(bs, harness.Batch{Name: fmt.Sprintf("esc-race-%d", p), Seed: seed*1000081 + int64(p), Spec: s, TimeoutS: 3000, CaseTimeoutS: 240, Race: true})
 	}
@@ -621,6 +625,12 @@ func (c check) Run(w *harness.W, b harness.Batch) {
 		for i := 0; i < s.N; i++ {
 			runFullQueue(w, gen.New(r.Int63()))
 		}
+	case "early-reply":
+		for i := 0; i < s.N; i++ {
+			if !runEarlyReply(w, gen.New(r.Int63())) {
+				break
+			}
+		}
 	case "esc-race":
 		for i := 0; i < s.N; i++ {
 			if !runEscRace(w, gen.New(r.Int63())) {
@@ -640,6 +650,121 @@ func (c check) Run(w *harness.W, b harness.Batch) {
 			}
 		}
 	}
+}
+
+// earlyCase: one goroutine asks the terminal a series of questions; the write
+// of each request returns only after the terminal's answer has been read and
+// dispatched by the input goroutine (slow tty, descheduled caller). Every call
+// returns the terminal's answer.
+type earlyCase struct {
+	Caps     uint32   `json:"caps_mask"`
+	LingerMs int      `json:"write_returns_ms_after_the_answer"`
+	Queries  []string `json:"queries"`
+}
+
+func runEarlyReply(w *harness.W, r gen.R) bool {
+	ec := earlyCase{Caps: 0x1ffff &^ (1 << 3), LingerMs: []int{2, 15, 40}[r.Intn(3)]}
+	for i, n := 0, r.Range(3, 8); i < n; i++ {
+		ec.Queries = append(ec.Queries, []string{"color", "fg", "bg", "cursor", "clipboard"}[r.Intn(5)])
+	}
+	cj, _ := json.Marshal(ec)
+	w.Begin(string(cj))
+	defer w.End()
+	sess, err := vxh.Start(40, 10, refterm.CapsFromMask(ec.Caps), vaxis.Options{}, nil)
+	if err != nil {
+		w.Inconclusive("start-failed")
+		return true
+	}
+	if _, ok := sess.Sync(); !ok {
+		w.Inconclusive("startup-sync-timeout")
+		return true
+	}
+	w.Case("early|" + string(cj))
+	sess.Con.With(func() {
+		sess.Term.Clipboard = "clip"
+		sess.Con.PostWriteDelay = func(p []byte) time.Duration {
+			for _, q := range []string{"\x1b[6n", "\x1b]10;?", "\x1b]11;?", "\x1b]4;", "\x1b]52;"} {
+				if strings.Contains(string(p), q) {
+					return time.Duration(ec.LingerMs) * time.Millisecond
+				}
+			}
+			return 0
+		}
+	})
+	wedged := false
+	defer func() {
+		if !wedged {
+			sess.Con.With(func() { sess.Con.PostWriteDelay = nil })
+			sess.Close()
+		}
+	}()
+	for qi, q := range ec.Queries {
+		done := make(chan string, 1)
+		go func() {
+			switch q {
+			case "color":
+				done <- fmt.Sprint(sess.Vx.QueryColor(vaxis.IndexColor(1)).Params())
+			case "fg":
+				done <- fmt.Sprint(sess.Vx.QueryForeground().Params())
+			case "bg":
+				done <- fmt.Sprint(sess.Vx.QueryBackground().Params())
+			case "cursor":
+				row, col := sess.Vx.CursorPosition()
+				done <- fmt.Sprint(row, col)
+			case "clipboard":
+				ctx, cancel := context.WithTimeout(context.Background(), 2*time.Second)
+				s, err := sess.Vx.ClipboardPop(ctx)
+				cancel()
+				done <- fmt.Sprintf("%q %v", s, err != nil)
+			}
+		}()
+		var res string
+		timeout := time.After(20 * time.Second)
+	wait:
+		for {
+			select {
+			case res = <-done:
+				break wait
+			case <-sess.Vx.Events():
+			case <-timeout:
+				wedged = true
+				if _, alive := sess.Sync(); alive {
+					for _, blk := range strings.Split(harness.AllStacks(), "\n\n") {
+						if (strings.Contains(blk, "vaxis.(*Vaxis).Query") || strings.Contains(blk, "vaxis.(*Vaxis).ClipboardPop")) && strings.Contains(blk, "[chan receive") {
+							w.ViolationStack("query:"+q+":answer-never-reaches-the-caller:early-reply", fmt.Sprintf("query %d (%s): the terminal answered while the caller was still inside its write (which returned %d ms later); the input loop is alive but the caller still waits after 20 s", qi, q, ec.LingerMs), ec, "caller blocked", "the answer", blk)
+							return false
+						}
+					}
+				}
+				w.Inconclusive("early-reply-query-did-not-return")
+				return false
+			}
+		}
+		w.Count("queries_answered_before_the_write_returned", 1)
+		var t *refterm.Terminal = sess.Term
+		want := ""
+		rgb := func(v uint32) string { return fmt.Sprintf("[%d %d %d]", v>>16&255, v>>8&255, v&255) }
+		sess.Con.With(func() {
+			switch q {
+			case "color":
+				want = rgb(refterm.DefaultPalette(1))
+			case "fg":
+				want = rgb(t.FgColor)
+			case "bg":
+				want = rgb(t.BgColor)
+			case "clipboard":
+				want = fmt.Sprintf("%q false", t.Clipboard)
+			}
+		})
+		if q == "cursor" {
+			continue // the answer races with the request's own 50 ms deadline
+		}
+		if res != want {
+			w.Violation("query:"+q+":early-reply", fmt.Sprintf("query %d (%s): the terminal answered while the caller was still inside its write (returned %d ms later); the call returned something else than the answer", qi, q, ec.LingerMs), ec, res, want)
+			return false
+		}
+	}
+	return true
 }
 
 // escCase: a lone ESC arms the Escape timer; the timer fires, and while its
